@@ -10,6 +10,19 @@ precondition on ${pub} ("compute pub^(2^258+priv) in group #14"), so the model
 is pow(y, e, P) for EVERY y in [0, 2^2048) - including 0, P, P+1, 2^2048-1 -
 and return value 0.  The sanity check must say 0 iff int(pub) < P.
 
+In-place / overlapping arguments (case kinds alias-*): the header gives the
+arguments no `restrict` and no "must not overlap" clause, and the library
+consumes ${pub} and ${priv} completely before the first byte of the result is
+stored, so a caller may receive the peer's value into a buffer and derive the
+key over it, or keep priv inside the (larger) output buffer.  These layouts
+were first tried on the unchanged tree: EVERY placement of pub (256 bytes),
+priv (32) and the output (256) inside one exact-size arena gives the value
+computed from the ORIGINAL contents, and no byte of the arena outside the output
+changes; that is what the oracle demands.  Not exercised: crypto_dh_generate
+with priv inside pub's buffer - two OUTPUTS cannot share storage (the
+unchanged library returns the right pub but has necessarily destroyed priv,
+so there is no contract to check).
+
 Runtime monitoring: the real crypto_dh.c / crypto_dh_group14.c run under
 ASan+UBSan with exact-size heap buffers; crypto_entropy_read is replaced at
 link time by the driver, which hands out the blinding values (and generated
@@ -138,6 +151,53 @@ def mk(kind, line):
     return {'kind': kind, 'line': line, 'expect': '', 'sig': sig(line), 'nt': True}
 
 
+# ---- overlapping arguments --------------------------------------------------
+# A layout is (name, fn, a, b, c, arena size): offsets of pub / priv / output in
+# one exact-size arena; -1 = the argument is a separate exact-size buffer.
+PRIV_OFFS = (0, 1, 31, 32, 100, 111, 128, 200, 223, 224)
+SHIFTS = (1, 8, 31, 32, 128, 255)
+
+
+def alias_layouts():
+    L = [('alias-key-is-pub', 'K', 0, -1, 0, 256)]
+    for o in PRIV_OFFS:
+        L.append(('alias-priv-in-key', 'K', -1, o, 0, 256))
+        L.append(('alias-key-is-pub-priv-inside', 'K', 0, o, 0, 256))
+        L.append(('alias-genpub-priv-in-pub', 'G', -1, o, 0, 256))
+    for d in SHIFTS:
+        # key and pub shifted against each other by d bytes, either way
+        L.append(('alias-key-pub-partial', 'K', 0, -1, d, 256 + d))
+        L.append(('alias-key-pub-partial', 'K', d, -1, 0, 256 + d))
+        L.append(('alias-key-pub-partial-priv-inside', 'K', 0, (d * 7) % (225 + d), d, 256 + d))
+    for k in (1, 16, 31):
+        # priv straddles the start / the end of the output
+        L.append(('alias-priv-straddles-key', 'K', -1, 0, k, 256 + k))
+        L.append(('alias-priv-straddles-key', 'K', -1, 256 - k, 0, 288 - k))
+        L.append(('alias-genpub-priv-straddles-pub', 'G', -1, 0, k, 256 + k))
+        L.append(('alias-genpub-priv-straddles-pub', 'G', -1, 256 - k, 0, 288 - k))
+    # pub and priv overlap each other (two inputs), output elsewhere in the arena
+    L.append(('alias-inputs-overlap', 'K', 0, 77, 256, 512))
+    L.append(('alias-inputs-overlap', 'K', 256, 240, 0, 512))
+    return L
+
+
+def mk_alias(rnd, layout, x, y, q):
+    """Case line for one layout; x / y are placed into the arena (priv after pub,
+    so where they overlap the effective pub is what the arena then holds)."""
+    name, fn, a, b, c, size = layout
+    arena = bytearray(rnd.getrandbits(8) for _ in range(size))
+    if rnd.random() < 0.5:
+        arena = bytearray(b'\xee' * size)
+    if a >= 0:
+        arena[a:a + 256] = y.to_bytes(256, 'big')
+    if b >= 0:
+        arena[b:b + 32] = x.to_bytes(32, 'big')
+    line = 'X %s %d %d %d %s %s %s %s' % (
+        fn, a, b, c, bytes(arena).hex(),
+        h256(y) if (fn == 'K' and a < 0) else '-', h32(x) if b < 0 else '-', qstr(q))
+    return mk(name, line)
+
+
 def gen_cases(base, seed, tier, shard, nshards):
     """Deterministic case list of one shard (`base` = run seed, shared by
     all shards; `seed` = this shard's own seed)."""
@@ -235,6 +295,41 @@ def gen_cases(base, seed, tier, shard, nshards):
         cases.append(mk('agreement-stale-errors', 'a %s' % qstr(q)))
         cases.append(mk('sanitycheck-stale-errors', 's %s' % h256(rnd.choice(ys))))
 
+    # (5c) in-place / overlapping arguments: every layout with special and
+    #      random values (shared over the shards), then random layouts
+    layouts = alias_layouts()
+    for lay in layouts:
+        for rep_ in range(3 if quick else 12):
+            x = common.choice(xs) if rep_ == 0 else common.getrandbits(256)
+            y = common.choice(ys) if rep_ == 1 else rand_y(common)
+            b = common.choice(blindings(common, x, True))
+            c = mk_alias(common, lay, x, y, [b])
+            if mine():
+                cases.append(c)
+    #      the plain in-place call (peer value replaced by the key) with every
+    #      special peer value
+    for y in ys:
+        x = common.choice([common.getrandbits(256), common.choice(xs)])
+        c = mk_alias(common, layouts[0], x, y, [common.choice(blindings(common, x, True))])
+        if mine():
+            cases.append(c)
+    for _ in range(25 if quick else 500):
+        x = rnd.choice([rnd.getrandbits(256), rnd.getrandbits(256), rnd.choice(xs)])
+        y = rnd.choice([rand_y(rnd), rand_y(rnd), rnd.choice(ys)])
+        b = rnd.choice(blindings(rnd, x, True))
+        r = rnd.random()
+        lay = layouts[0] if r < 0.3 else rnd.choice(layouts[1:31]) if r < 0.75 else rnd.choice(layouts)
+        cases.append(mk_alias(rnd, lay, x, y, [b]))
+        if rnd.random() < 0.15:
+            cases.append(mk_alias(rnd, rnd.choice(layouts), x, y, rnd.choice([[None], [], [None, b]])))
+    #      one buffer for everything: sanity check, in-place compute, sanity
+    #      check of the result
+    for _ in range(8 if quick else 200):
+        x = rnd.choice([rnd.getrandbits(256), rnd.choice(xs)])
+        y = rnd.choice([rand_y(rnd), rnd.choice(ys)])
+        b = rnd.choice(blindings(rnd, x, True))
+        cases.append(mk('sanitycheck-then-inplace-compute', 'V %s %s %s' % (h256(y), h32(x), qstr([b]))))
+
     # (6) crypto_dh_generate and two-party agreement
     for _ in range(12 if quick else 800):
         x = rnd.choice([rnd.getrandbits(256), rnd.choice(xs)])
@@ -313,6 +408,63 @@ def make_judge(st):
                     st.setdefault('_lz', set()).add(z)
                 if out != h256(want):
                     return ('oracle:' + kind, 'expected %s got %s' % (h256(want), out))
+                return None
+            if op == 'X':
+                fn, ao, bo, co = t[1], int(t[2]), int(t[3]), int(t[4])
+                arena = bytes.fromhex(t[5])
+                q = parse_q(t[8])
+                kind = c['kind']
+                ret, after, n = int(a[0]), bytes.fromhex(a[1]), int(a[2])
+                x = int.from_bytes(arena[bo:bo + 32], 'big') if bo >= 0 else int(t[7], 16)
+                if fn == 'K':
+                    base = int.from_bytes(arena[ao:ao + 256], 'big') if ao >= 0 else int(t[6], 16)
+                else:
+                    base = 2
+                if failed_delivered(q, n):
+                    bump('entropy_failures_delivered')
+                    if ret != -1:
+                        return ('oracle:entropy-failure-ignored:' + kind,
+                                'entropy call failed but the call returned %d' % ret)
+                    return None
+                if ret != 0:
+                    return ('oracle:spurious-failure:' + kind,
+                            'returned %d although entropy call(s) succeeded (%d calls)' % (ret, n))
+                want = pow(base, T258 + x, P)
+                bump('exponentiations_compared')
+                bump('overlapping_argument_calls')
+                bump(kind.replace('-', '_'))
+                if len(after) != len(arena):
+                    return ('oracle:unparsable-answer', 'arena of %d bytes came back as %d' % (len(arena), len(after)))
+                got = after[co:co + 256]
+                if got != want.to_bytes(256, 'big'):
+                    return ('oracle:' + kind, 'pub@%d priv@%d out@%d in one %d-byte buffer: expected %s got %s'
+                            % (ao, bo, co, len(arena), h256(want), got.hex()))
+                if after[:co] != arena[:co] or after[co + 256:] != arena[co + 256:]:
+                    bad = [i for i in range(len(arena)) if not co <= i < co + 256 and after[i] != arena[i]]
+                    return ('oracle:' + kind + ':wrote-outside-output',
+                            'pub@%d priv@%d out@%d: arena bytes %s outside the output changed' % (ao, bo, co, bad[:8]))
+                return None
+            if op == 'V':
+                y, x, q = int(t[1], 16), int(t[2], 16), parse_q(t[3])
+                s1, buf1, ret, key, s2, n = int(a[0]), a[1], int(a[2]), a[3], int(a[4]), int(a[5])
+                want1 = 0 if y < P else -1
+                if s1 != want1:
+                    return ('oracle:sanitycheck', 'expected %d got %d' % (want1, s1))
+                if buf1 != h256(y):
+                    return ('oracle:sanitycheck-modified-its-input', 'buffer %s became %s' % (h256(y), buf1))
+                if failed_delivered(q, n):
+                    bump('entropy_failures_delivered')
+                    return None if ret == -1 else ('oracle:entropy-failure-ignored:compute', 'returned %d' % ret)
+                if ret != 0:
+                    return ('oracle:spurious-failure:compute', 'returned %d' % ret)
+                want = pow(y, T258 + x, P)
+                bump('exponentiations_compared')
+                bump('overlapping_argument_calls')
+                bump('sanitycheck_then_inplace_compute')
+                if key != h256(want):
+                    return ('oracle:sanitycheck-then-inplace-compute', 'expected %s got %s' % (h256(want), key))
+                if s2 != 0:
+                    return ('oracle:sanitycheck', 'the computed key (below p) was rejected: %d' % s2)
                 return None
             if op == 'D':
                 q = parse_q(t[1])
@@ -400,6 +552,12 @@ def run(ctx):
             or ctx.cov.get('entropy_failures_delivered', 0) < 5 \
             or ctx.cov.get('two_party_exchanges', 0) < 5:
         ctx.note_inconclusive('monitor observed too few exponentiations / padded results / failures')
+    need = ['alias_key_is_pub', 'alias_priv_in_key', 'alias_key_is_pub_priv_inside', 'alias_genpub_priv_in_pub',
+            'alias_key_pub_partial', 'alias_priv_straddles_key', 'alias_genpub_priv_straddles_pub',
+            'alias_inputs_overlap', 'sanitycheck_then_inplace_compute']
+    missing = [k for k in need if ctx.cov.get(k, 0) == 0]
+    if missing and not ctx.violations:
+        ctx.note_inconclusive('overlapping-argument layouts never judged: ' + ', '.join(missing))
     ctx.cov['rule'] = (
         'cases = one call of generate_pub / compute / sanitycheck / generate / a two-party exchange, with the '
         'entropy queue (blinding values, generated private keys, failures) fixed by the case line; '
@@ -407,10 +565,21 @@ def run(ctx):
         '(p-1)/2,values with leading zero bytes,random below p,random in [p,2^2048)}, each (x,y) with blindings '
         '{0,2^256-1,random,x} (more in thorough); for every k in 1..256 a peer value constructed as t^(1/e) so that the '
         'shared key has exactly k leading zero bytes; sanity check on p with every single byte +-1 and every prefix of p; '
-        'entropy failure at every queue position; non-trivial = every case (each is a distinct input tuple); '
+        'entropy failure at every queue position; '
+        'overlapping arguments (kinds alias-*, counters alias_*): one exact-size arena holds the arguments at chosen '
+        'offsets and the result must be the value computed from the ORIGINAL contents, with no arena byte outside the '
+        'output changed - crypto_dh_compute with key == pub (in place), priv inside the key buffer at offsets '
+        '{0,1,31,32,100,111,128,200,223,224}, key == pub with priv inside it, key and pub shifted against each other by '
+        '{1,8,31,32,128,255} bytes either way, priv straddling either end of key, pub and priv overlapping each other; '
+        'crypto_dh_generate_pub with priv inside pub at the same offsets or straddling either end; all of these give '
+        'the correct result on the unchanged library (inputs are consumed before the output is stored); NOT exercised: '
+        'crypto_dh_generate with priv inside pub (two outputs cannot share storage); one buffer through '
+        'sanitycheck -> in-place compute -> sanitycheck of the key (first check must not modify it); non-trivial = every case (each is a distinct input tuple); '
         'distinct = distinct case lines')
     ctx.cov['sanitizers'] = 'gcc -fsanitize=address,undefined, exact-size heap buffers for priv/pub/key, outputs pre-filled 0xEE'
     ctx.assumptions += [
+        'crypto_dh_compute / crypto_dh_generate_pub may be called with the output overlapping an input (no restrict, no '
+        'documented exclusion; the unchanged library reads every input before it stores the result)',
         'CPython pow() with three arguments is modular exponentiation; the modulus literal equals the RFC 3526 '
         'formula (checked at start-up with pi computed by Machin\'s series)',
         'crypto_dh_compute is documented for any 256-byte peer value; the model is pow(y, 2^258+x, p) for all y '
